@@ -11,6 +11,7 @@ CLAUSES = {
     "Cl_SelfCool": "T[k+1] = T[k] - Q[k]/(m[k] (x[k] cp1 + (1-x[k]) cp2))", "Cl_Programme": "T[k] = programme(time[k]), k >= 1",
     "Cl_IsoConst": "isothermal models never change T", "Cl_QcondIff": "condensation heat reported iff a permeate temperature is given",
     "Cl_Step0Agree": "isothermal and non-isothermal models agree on fluxes and heats at step 0",
+    "Ref_ProgramValue": "DRIFT: TemperatureProgram.program equals the specification's polynomial / exponential / logarithmic formula",
 }
 MANIFEST = {
     "text": "TLC model-checks the heat part of the Process machine with exact rationals (evaporation heat, self-cooling, programme, "
@@ -33,3 +34,9 @@ def run(ctx, pool):
     res = core.validate_traces(None, ctx, tw, pool, "Trace_Process.tla", "Trace_Process_C03.cfg")
     return pc.finish(res, tw, stats, CLAUSES, pc.RULE + "; plus step-0 twins (same conditions through the isothermal and the "
                      "non-isothermal model, ideal and non-ideal)", required=("Start", "State", "End", "Step0Twin"))
+
+
+def classify(v, kf):
+    if v["invariant"].startswith("Ref_"):
+        return ("drift", None)
+    return ("violation", None)
